@@ -417,6 +417,235 @@ fn run_removal(ev: u64, both_learned: bool, trace: bool) -> CaseResult {
     res
 }
 
+// ---------------------------------------------------------------- automatic addressing follows the interface table
+
+#[derive(Clone, Copy, Debug, PartialEq)]
+enum AEv {
+    AddSecondV4,
+    RemoveSecondV4,
+    Sim1Down,
+    Sim1Up,
+    MoveSim1AddrToSim2,
+    MoveItBack,
+    AddV6OnSim0,
+    RemoveV6OnSim0,
+    LateAppears,
+    LateDisappears,
+    Sim1PrefixChanges,
+}
+const AEVS: [AEv; 11] = [
+    AEv::AddSecondV4,
+    AEv::RemoveSecondV4,
+    AEv::Sim1Down,
+    AEv::Sim1Up,
+    AEv::MoveSim1AddrToSim2,
+    AEv::MoveItBack,
+    AEv::AddV6OnSim0,
+    AEv::RemoveV6OnSim0,
+    AEv::LateAppears,
+    AEv::LateDisappears,
+    AEv::Sim1PrefixChanges,
+];
+
+fn auto_topo() -> Vec<SimIntf> {
+    vec![v4("sim0", IF0, "10.0.0.1", 24), v4("sim1", IF1, "10.0.1.1", 24), v4("sim2", IF2, "10.0.2.1", 24), v6("sim2", IF2, "fd00:2::1", 64)]
+}
+
+/// Applies an interface event to the table; None if it is not enabled in this table.
+fn apply_aev(t: &[SimIntf], e: AEv) -> Option<Vec<SimIntf>> {
+    let mut t: Vec<SimIntf> = t.to_vec();
+    let has = |t: &[SimIntf], ifi: u32, ip: &str| t.iter().any(|i| i.index == ifi && i.ip == ip.parse::<IpAddr>().unwrap());
+    match e {
+        AEv::AddSecondV4 => {
+            if has(&t, IF1, "10.0.4.1") || !t.iter().any(|i| i.index == IF1) {
+                return None;
+            }
+            t.push(v4("sim1", IF1, "10.0.4.1", 24));
+        }
+        AEv::RemoveSecondV4 => {
+            if !has(&t, IF1, "10.0.4.1") {
+                return None;
+            }
+            t.retain(|i| !(i.index == IF1 && i.ip == "10.0.4.1".parse::<IpAddr>().unwrap()));
+        }
+        AEv::Sim1Down => {
+            if !t.iter().any(|i| i.index == IF1) {
+                return None;
+            }
+            t.retain(|i| i.index != IF1);
+        }
+        AEv::Sim1Up => {
+            if t.iter().any(|i| i.index == IF1) || has(&t, IF2, "10.0.1.1") {
+                return None;
+            }
+            t.push(v4("sim1", IF1, "10.0.1.1", 24));
+        }
+        AEv::MoveSim1AddrToSim2 => {
+            if !has(&t, IF1, "10.0.1.1") {
+                return None;
+            }
+            t.retain(|i| !(i.index == IF1 && i.ip == "10.0.1.1".parse::<IpAddr>().unwrap()));
+            t.push(v4("sim2", IF2, "10.0.1.1", 24));
+        }
+        AEv::MoveItBack => {
+            if !has(&t, IF2, "10.0.1.1") {
+                return None;
+            }
+            t.retain(|i| !(i.index == IF2 && i.ip == "10.0.1.1".parse::<IpAddr>().unwrap()));
+            t.push(v4("sim1", IF1, "10.0.1.1", 24));
+        }
+        AEv::AddV6OnSim0 => {
+            if has(&t, IF0, "fd00::1") {
+                return None;
+            }
+            t.push(v6("sim0", IF0, "fd00::1", 64));
+        }
+        AEv::RemoveV6OnSim0 => {
+            if !has(&t, IF0, "fd00::1") {
+                return None;
+            }
+            t.retain(|i| !(i.index == IF0 && i.ip.is_ipv6()));
+        }
+        AEv::LateAppears => {
+            if t.iter().any(|i| i.index == LATE) {
+                return None;
+            }
+            t.extend(late_intf());
+        }
+        AEv::LateDisappears => {
+            if !t.iter().any(|i| i.index == LATE) {
+                return None;
+            }
+            t.retain(|i| i.index != LATE);
+        }
+        AEv::Sim1PrefixChanges => {
+            let Some(e) = t.iter_mut().find(|i| i.index == IF1 && i.ip == "10.0.1.1".parse::<IpAddr>().unwrap()) else { return None };
+            e.prefix = if e.prefix == 24 { 25 } else { 24 };
+        }
+    }
+    Some(t)
+}
+
+/// A service with automatic addressing is registered; then a sequence of interface events, one per
+/// periodic check.  After each, every interface is asked for the host's addresses over each IP family
+/// it has: the answers (union over the families) must be exactly the current addresses that lie in a
+/// subnet of that interface, and nothing naming the host may carry an address of another link.
+fn run_auto(seq: &[AEv], trace: bool) -> CaseResult {
+    let mut res = CaseResult::default();
+    let mut table = auto_topo();
+    {
+        // sequences with an event that is not enabled are not cases of their own
+        let mut t = table.clone();
+        for e in seq {
+            match apply_aev(&t, *e) {
+                Some(t2) => t = t2,
+                None => return res,
+            }
+        }
+    }
+    let mut w = World::one(table.clone());
+    w.trace = trace;
+    w.ds[0].h.set_ip_check_interval(1).unwrap();
+    w.poke(0);
+    w.advance(5100); // the first periodic check still follows the default interval
+    let info = svc("_t._tcp.local.", "one", "host.local.", "", 80, &[]).enable_addr_auto();
+    w.ds[0].h.register(info).unwrap();
+    w.poke(0);
+    w.advance(3000);
+    let host = n("host.local");
+    let mut tables: Vec<(u64, Vec<SimIntf>)> = vec![(0, table.clone())];
+    let ask_all = |w: &mut World, table: &[SimIntf], res: &mut CaseResult, tag: &str| {
+        let idxs: BTreeSet<u32> = table.iter().map(|i| i.index).collect();
+        for ifi in idxs {
+            let mut got: BTreeSet<IpAddr> = BTreeSet::new();
+            for fam4 in [true, false] {
+                let Some(e) = table.iter().find(|i| i.index == ifi && i.ip.is_ipv4() == fam4) else { continue };
+                let src = match &e.ip {
+                    IpAddr::V4(v) => format!("{}.{}.{}.9:5353", v.octets()[0], v.octets()[1], v.octets()[2]),
+                    IpAddr::V6(v) => format!("[{:x}:{:x}::9]:5353", v.segments()[0], v.segments()[1]),
+                };
+                let from = w.log.len();
+                w.deliver(0, ifi, &src, build(&query(vec![(host.clone(), T_ANY), (n("_t._tcp.local"), T_PTR)])));
+                for (_, o) in outs(w, 0, from) {
+                    if o.if_index != Some(ifi) {
+                        continue;
+                    }
+                    if let Ok(m) = &o.msg {
+                        for r in m.all_records() {
+                            if name_eq_ci(&r.name, &host) {
+                                match &r.rd {
+                                    RD::A(b) => { got.insert(ip4(*b)); }
+                                    RD::Aaaa(b) => { got.insert(IpAddr::V6((*b).into())); }
+                                    _ => {}
+                                }
+                            }
+                        }
+                    }
+                }
+            }
+            let want: BTreeSet<IpAddr> = table.iter().filter(|a| table.iter().any(|e| e.index == ifi && in_subnet(&a.ip, e))).map(|a| a.ip).collect();
+            res.count("auto_answers_compared", 1);
+            if got != want {
+                let missing: Vec<_> = want.difference(&got).collect();
+                let extra: Vec<_> = got.difference(&want).collect();
+                let kind = if !missing.is_empty() && extra.is_empty() { "address-missing" } else if missing.is_empty() { "stale-or-foreign-address" } else { "both" };
+                res.viols.push(viol(format!("C18|addr-auto-answers-differ-from-the-interface-table|{kind}"), format!("{tag}: interface {ifi} answers {got:?}, its addresses are {want:?}")));
+            }
+        }
+    };
+    ask_all(&mut w, &table, &mut res, "after registration");
+    let mut nontrivial = false;
+    for (k, e) in seq.iter().enumerate() {
+        let Some(t2) = apply_aev(&table, *e) else {
+            // not enabled in this table: the sequence is not a case of its own
+            res.nontrivial = false;
+            res.outcome = 0;
+            res.transitions = w.steps;
+            return res;
+        };
+        table = t2;
+        w.ds[0].ctl.set_intfs(table.clone());
+        tables.push((w.now, table.clone()));
+        w.advance(1100);
+        w.advance(3000);
+        nontrivial = true;
+        ask_all(&mut w, &table, &mut res, &format!("after event {} {:?}", k + 1, e));
+    }
+    let _ = w.ds[0].h.unregister("one._t._tcp.local.").unwrap();
+    w.poke(0);
+    w.advance(300);
+    // nothing naming the host carries an address of another link (table in force when sent; the
+    // 1.1 s after a table change, before the daemon can know, are exempt)
+    for (t, o) in outs(&w, 0, 0) {
+        let Ok(m) = &o.msg else { continue };
+        let Some(ifi) = o.if_index else { continue };
+        let (since, tab) = tables.iter().rev().find(|(t0, _)| *t0 <= t).unwrap();
+        if *since != 0 && t < since + 1100 {
+            continue;
+        }
+        for r in m.all_records() {
+            let ip: Option<IpAddr> = match &r.rd {
+                RD::A(b) => Some(ip4(*b)),
+                RD::Aaaa(b) => Some(IpAddr::V6((*b).into())),
+                _ => None,
+            };
+            if let Some(ip) = ip {
+                if name_eq_ci(&r.name, &host) && r.ttl > 0 && !tab.iter().any(|e| e.index == ifi && in_subnet(&ip, e)) {
+                    res.viols.push(viol("C18|address-of-another-link-sent-on-this-interface|addr-auto", format!("{ip} at +{} on if {}: {}", t - T0, ifi, m.summary())));
+                }
+            }
+        }
+    }
+    if let Some(f) = daemon_fault(&w, 0) {
+        res.viols.push(viol(format!("C18|daemon-fault|{}", panic_sig(&f)), f));
+    }
+    res.nontrivial = nontrivial || seq.is_empty();
+    res.transitions = w.steps;
+    res.outcome = outcome_hash(&w.log);
+    res.states = final_states(&w);
+    res
+}
+
 pub fn check(tier: &str) -> i32 {
     let mut rep = Report::new("C18", tier, "model_checking");
     let thorough = rep.thorough();
@@ -464,6 +693,33 @@ pub fn check(tier: &str) -> i32 {
         run: Box::new(|i, tr| run_removal(i % 6, i / 6 == 1, tr)),
     };
     rep.run_part(&rem, Duration::from_secs(120));
+    let adepth = if thorough { 6 } else { 4 };
+    let na = AEVS.len() as u64;
+    let mut naseq = 0u64;
+    let mut b = 1u64;
+    for _ in 0..=adepth {
+        naseq += b;
+        b *= na;
+    }
+    let aseq = move |mut idx: u64| -> Vec<AEv> {
+        let mut len = 0;
+        let mut block = 1u64;
+        while idx >= block {
+            idx -= block;
+            block *= na;
+            len += 1;
+        }
+        (0..len).map(|_| { let x = idx % na; idx /= na; AEVS[x as usize] }).collect()
+    };
+    let auto = FnPart {
+        name: "addr-auto-follows-the-table".into(),
+        rule: format!("a service with automatic addressing on 3 interfaces (two IPv4, one dual-stack); every sequence of <= {adepth} interface events over {} kinds (second address added/removed, interface down/up, an address moved to another interface and back, IPv6 added/removed, a new interface appears/disappears, prefix length changes), one per periodic check; after each event every interface is asked for the host's addresses over each family and the answers compared with the table; sequences with an event that is not enabled are skipped (trivial)", AEVS.len()),
+        n: naseq,
+        describe: Box::new(move |i| format!("{:?}", aseq(i))),
+        run: Box::new(move |i, tr| run_auto(&aseq(i), tr)),
+    };
+    rep.run_part(&auto, Duration::from_secs(if thorough { 1800 } else { 50 }));
+    rep.require("addr-auto-follows-the-table", "auto_answers_compared");
     rep.require("selection-sequences", "selection_states_checked");
     rep.require("service-subnets", "service_packets_checked");
     rep.require("interface-removal-and-disabling", "removal_cases_checked");
